@@ -4,7 +4,7 @@
     c01 <cfg> <n>  <spec>*n  <op>*
       cfg  : nodata | stored | loaded
       spec : I <val> | F ref j | F cat k j*k | F add a b | F sub a b | F eq a b | F sum k j*k | F cnt k j*k
-             | F idx r row col
+             | F idx r row col | F isum r1 r2 k (row col)*k
              | R <rows> <cols> j*(rows*cols)
       op   : S i <val> | E i | M k (i <val>)*k  (set_value of a range / list of cells) | X k i*k  (evaluate of a list)
   Answer: one item per operation joined by ';' — the value returned by `evaluate` (scalar token, or `a:r:c v…` for a
@@ -35,6 +35,10 @@ partial def parseSpecs : Nat → List String → Option (List Spec × List Strin
       | "F" :: "eq" :: a :: b :: rest => do some (Spec.fml (.eq (← a.toNat?) (← b.toNat?)), rest)
       | "F" :: "idx" :: r :: row :: col :: rest => do
           some (Spec.fml (.idx (← r.toNat?) (← row.toNat?) (← col.toNat?)), rest)
+      | "F" :: "isum" :: r1 :: r2 :: k :: rest => do
+          let k ← k.toNat?
+          let (js, rest) ← takeNats (2*k) rest
+          some (Spec.fml (.isum (← r1.toNat?) (← r2.toNat?) ((chunk 2 k js).map fun p => (p.getD 0 0, p.getD 1 0))), rest)
       | "F" :: "cat" :: k :: rest => do
           let (js, rest) ← takeNats (← k.toNat?) rest
           some (Spec.fml (.cat js), rest)
